@@ -11,6 +11,7 @@ import (
 
 	"go.lstv.dev/util/constraint"
 	"go.lstv.dev/util/size"
+	"verif/firstuse"
 	"verif/libdefaults"
 	"verif/mc"
 	"verif/oracle"
@@ -460,6 +461,7 @@ func probeC(cArg) (string, string) {
 func main() {
 	mc.Main("C08", "per unit: every value within the stated distance of floor((2^64-1)/multiplier) and of 0, all powers of two and ten; New over 16 numeric kinds x boundary values x units; grammar-generated texts with every separator placement; all short strings over a text alphabet; Bytes[N] at type and mantissa boundaries; "+
 		"non-trivial = the reference accepts the point (exact product fits)", func(r *mc.Run) {
+		firstuse.Phase(r, map[string][]string{"size": {"new", "parse"}})
 		r.Reset = reset
 		reset()
 		pNU := mc.NewProbe(r, "new_uint64_and_text", nil, probeNU)
